@@ -548,6 +548,41 @@ fn check_plan_update(rep: &mut Report, case: u64, world: &World, s: &Setup, psbt
     }
 }
 
+/// `PsbtExt::sighash_msg` on an updated input must be the digest a signer has to sign for this
+/// output type (script code / leaf chosen by the harness from the descriptor's shape).
+fn check_sighash_msg(rep: &mut Report, case: u64, world: &World, s: &Setup, psbt: &Psbt, i: usize) {
+    let ip = &s.inputs[i];
+    let spend = Spend { tx: s.tx.clone(), prevouts: s.prevouts.clone(), idx: i };
+    let assets = Assets::new(world, &spend, ip.target.ecdsa.clone());
+    let mut wants: Vec<(Option<TapLeafHash>, Option<[u8; 32]>)> = vec![];
+    if ip.case.kind == DescKind::Tr {
+        wants.push((None, assets.schnorr_digest(None)));
+        for p in &ip.target.paths {
+            if let Some(lh) = p.leaf_hash {
+                wants.push((Some(lh), assets.schnorr_digest(Some(lh))));
+            }
+        }
+    } else {
+        wants.push((None, assets.ecdsa_digest()));
+    }
+    for (leaf, want) in wants {
+        rep.eval();
+        let got = guarded(std::panic::AssertUnwindSafe(|| {
+            let mut cache = bitcoin::sighash::SighashCache::new(&psbt.unsigned_tx);
+            psbt.sighash_msg(i, &mut cache, leaf).ok().map(|m| *m.to_secp_msg().as_ref())
+        }));
+        match (got, want) {
+            (Err(m), _) => rep.violation(case, format!("C14:panic:sighash_msg:{}", norm_loc(&last_panic_loc())), format!("{} on {}", m, ip.case.desc)),
+            (Ok(Some(g)), Some(w)) if g == w => rep.count("sighash_msg-equals-signer-digest"),
+            (Ok(g), w) => rep.violation(
+                case,
+                format!("C14:sighash_msg:{:?}", ip.case.kind),
+                format!("sighash_msg(input {}, leaf {:?}) = {:?} but a signer of {} must sign {:?}", i, leaf, g.map(|x| hex(&x)), ip.case.desc, w.map(|x| hex(&x))),
+            ),
+        }
+    }
+}
+
 pub fn run(cfg: &RunCfg, rep: &mut Report) {
     let world = World::new(cfg.seed);
     let total = cfg.n_cases(12_000, 300_000);
@@ -693,6 +728,7 @@ pub fn run(cfg: &RunCfg, rep: &mut Report) {
                 (Op::Update(k), Outcome::Ok) => {
                     check_update_fields(rep, i, &world, &s, &psbt, *k);
                     check_plan_update(rep, i, &world, &s, &psbt, *k);
+                    check_sighash_msg(rep, i, &world, &s, &psbt, *k);
                 }
                 (Op::Update(k), Outcome::Err(_)) => {
                     rep.violation(i, "C14:update-refused".into(), format!("update_input_with_descriptor({}) refused a matching utxo: {}", k, describe(&s, &hist)));
